@@ -136,6 +136,8 @@ func (m *Machine) Do(s *Step) (fail bool, ret []Text, errc string) {
 			return true, nil, "nilnil"
 		}
 		m.created(s.H, u)
+	case "newurl":
+		m.created(s.H, m.P.NewUrl())
 	case "resolve":
 		u, err := m.U[s.Hb].Parse(a)
 		if err != nil {
